@@ -542,6 +542,9 @@ def fam_abandon(mi, rnd, tier):
                     break
                 ops = [('dnew', rnd.randint(1, 9))] + po + [('handle', ev, plc.next(mi, ev), orc, b)]
                 out.append(ops + followups(plc))
+    # a wrapper made by Default::default() was never part of an abandoned call: it is as usable as one made by new()
+    plc = PL()
+    out.append([('ddefault',)] + followups(plc))
     # a future that is never polled has no effect: the wrapper is as it was (handle borrows it), the typed machine is gone
     if mi.is_async:
         for (leaf, ev) in edges[: (3 if tier == 'quick' else 10)]:
@@ -712,6 +715,8 @@ def mutants(rnd, d):
                 edit_tr(lambda t: [('from', [g2, fresh]) if x[0] == 'from' else x for x in t], 'source_undeclared_after_superstate')
                 edit_tr(lambda t: [('from', [fresh, g2]) if x[0] == 'from' else x for x in t], 'source_undeclared_before_superstate')
             edit_tr(lambda t: [('to', fresh) if x[0] == 'to' else x for x in t], 'target_undeclared')
+            edit_tr(lambda t: [('from', ['r#' + x[1][0]] + list(x[1][1:])) if (x[0] == 'from' and x[1]) else x for x in t], 'source_raw_spelling')
+            edit_tr(lambda t: [('to', 'r#' + x[1]) if x[0] == 'to' else x for x in t], 'target_raw_spelling')
     return out
 
 
@@ -877,15 +882,15 @@ def fixtures():
             ('leaf', 'A2', None)]),
         ('leaf', 'I1', None), ('leaf', 'J1', None), ('leaf', 'K1', None)]
     big_events = [
-        _ev('big', _tr(['G1', 'L3'], 'L4', guards=['bg5', 'bg6'], unless=['bu4', 'bu5'], before=['bb4', 'bb5'], after=['ba4', 'ba5'], around=['bw4', 'bw5']),
-            payload='P', guards=['bg1', 'bg2', 'bg3', 'bg4'], unless=['bu1', 'bu2', 'bu3'], before=['bb1', 'bb2', 'bb3'],
-            after=['ba1', 'ba2', 'ba3'], around=['bw1', 'bw2', 'bw3']),
+        _ev('big', _tr(['G1', 'L3'], 'L4', guards=['bg5', 'bg6'], unless=['bu4', 'bu5'], before=['bb5', 'bb6', 'bb7'], after=['ba5', 'ba6'], around=['bw4', 'bw5']),
+            payload='P', guards=['bg1', 'bg2', 'bg3', 'bg4'], unless=['bu1', 'bu2', 'bu3'], before=['bb1', 'bb2', 'bb3', 'bb4'],
+            after=['ba1', 'ba2', 'ba3', 'ba4'], around=['bw1', 'bw2', 'bw3']),
         _ev('e1', _tr(['G1'], 'H1')), _ev('e2', _tr(['H1'], 'I1')), _ev('e3', _tr(['I1'], 'J1')), _ev('e4', _tr(['J1'], 'K1')),
         _ev('e5', _tr(['K1'], 'L1')), _ev('e6', _tr(['L1'], 'G1')), _ev('e7', _tr(['L5'], 'A2'), _tr(['A2', 'B1'], 'L5')),
         _ev('e8', _tr(['L2'], 'L2', guards=['sg1'])),
     ]
-    for is_async in (False, True):
-        d = [('name', 'M'), ('initial', 'G1')] + ([('async', True)] if is_async else []) + \
+    for (is_async, concrete) in ((False, False), (True, True)):
+        d = [('name', 'M'), ('initial', 'G1')] + ([('context', 'Ctx')] if concrete else []) + ([('async', True)] if is_async else []) + \
             [('dynamic', True), ('states', big_forest), ('events', big_events)]
         out.append(d)
     # more than 128 (state, event) edges: eighteen leaves under one superstate, eight events from the superstate, one from a leaf
